@@ -71,7 +71,7 @@ def _div_guard(f, blk, pair, dom):
         for s_ in srcs:
             if s_ is not None and s_["k"] == "bin" and s_["op"] == "%":
                 o2 = [RU.uncast(f, a) for a in s_["a"]]
-                if all(o is not None and o["k"] == "var" for o in o2) and (o2[0]["n"], o2[1]["n"]) == pair:
+                if all(o is not None and o["k"] == "var" for o in o2) and (f.canon(o2[0]["n"]), f.canon(o2[1]["n"])) == pair:
                     return True
     return False
 
@@ -85,7 +85,8 @@ def _lt_guard(f, ev, lo, hi, dom):
         l, r = RU.uncast(f, t[0]), RU.uncast(f, t[2])
         if l is None or r is None or l["k"] != "var" or r["k"] != "var":
             continue
-        if (t[1] == "<" and (l["n"], r["n"]) == (lo, hi)) or (t[1] == ">" and (l["n"], r["n"]) == (hi, lo)):
+        ln_, rn_ = f.canon(l["n"]), f.canon(r["n"])
+        if (t[1] == "<" and (ln_, rn_) == (lo, hi)) or (t[1] == ">" and (ln_, rn_) == (hi, lo)):
             return True
     return False
 
@@ -446,9 +447,9 @@ def convert(R, P):
         if nd["op"] != "/":
             continue
         ops = [RU.uncast(f, a) for a in nd["a"]]
-        if not all(o is not None and o["k"] == "var" and o["n"] in params for o in ops):
+        if not all(o is not None and o["k"] == "var" and f.canon(o["n"]) in params for o in ops):
             continue
-        pair = (ops[0]["n"], ops[1]["n"])
+        pair = (f.canon(ops[0]["n"]), f.canon(ops[1]["n"]))
         blk = num.elem_of.get(nd["id"], (None,))[0]
         okg = _div_guard(f, blk, pair, dom)
         R.check(okg, "CONVERT", "frequency-ratio-only-when-exact:%s/%s" % pair, "include/aws/common/clock.inl:%d" % nd.get("loc", [0])[0], "`%s / %s` is computed only under `%s %% %s == 0`" % (pair + pair),
